@@ -153,6 +153,15 @@ func runC05(r *Run) {
 			pingCtx[i] = []time.Duration{time.Second, 2 * time.Second, 20 * time.Second}[t.Draw(3)]
 		}
 	}
+	// with a stall some writers have their own short context: a Write/Close that gives
+	// up while it waits for a lock fails without closing the connection, and the
+	// stream must stay a well-formed prefix whatever the other writers do next
+	writerCtx := make([]time.Duration, nW)
+	for i := range writerCtx {
+		if stall && t.Pct(50) {
+			writerCtx[i] = []time.Duration{1500 * time.Millisecond, 3 * time.Second}[t.Draw(2)]
+		}
+	}
 	peerPings := 0
 	if stall && !pair {
 		peerPings = t.Draw(4)
@@ -202,6 +211,12 @@ func runC05(r *Run) {
 				r.S.Park("a." + name)
 				data := tagged(wp.id, 2, j, wp.sizes[j])
 				var err error
+				bg := bg
+				if d := writerCtx[wp.id-1]; d > 0 {
+					var cancel context.CancelFunc
+					bg, cancel = context.WithTimeout(bg, d)
+					defer cancel()
+				}
 				if wp.api[j] == 0 {
 					err = a.Write(bg, websocket.MessageBinary, data)
 				} else {
@@ -320,7 +335,7 @@ func runC05(r *Run) {
 		r.S.Go("closer", func() {
 			switch closer {
 			case 0:
-				r.S.ParkE("a.closer", func() bool { return live.Load() <= 1 || readerDone.Load() }, nil)
+				r.S.ParkE("a.closer", func() bool { return live.Load() <= 1 || readerDone.Load() || failed.Load() > 0 }, nil)
 				closing.Store(true)
 				a.Close(websocket.StatusNormalClosure, "done")
 			case 1, 2, 3, 4:
@@ -366,7 +381,7 @@ func runC05(r *Run) {
 		r.S.Go("closer", func() {
 			switch closer {
 			case 0, 3:
-				r.S.ParkE("a.closer", func() bool { return live.Load() <= 1 || readerDone.Load() }, nil)
+				r.S.ParkE("a.closer", func() bool { return live.Load() <= 1 || readerDone.Load() || failed.Load() > 0 }, nil)
 				closing.Store(true)
 				a.Close(websocket.StatusNormalClosure, "done")
 			default:
